@@ -63,6 +63,10 @@ pub enum Call {
     /// generate_spdm_msg_packet_bytes(dest, SpdmOverMctp|SecuredMessages, header, data);
     /// half: 0 = through the request half, 1 = through the response half
     Spdm { dest: u8, secured: bool, hdr: Option<Vec<u8>>, body: Vec<u8>, half: u8 },
+    /// the public packet generators of the SMBusMCTPRequestResponse trait called directly:
+    /// kind 0 = generate_control_packet_bytes (hdr = [Rq|iid, command] of a command without fixed
+    /// request length), 1 = generate_pci_msg_packet_bytes, 2 = generate_iana_msg_packet_bytes
+    Raw { kind: u8, dest: u8, hdr: Option<Vec<u8>>, body: Vec<u8>, half: u8 },
 }
 
 fn cc_of(v: u8) -> CompletionCode {
@@ -103,7 +107,7 @@ fn msg_type(i: u8) -> MessageType {
 impl Call {
     pub fn dest(&self) -> u8 {
         match self {
-            Call::Req { dest, .. } | Call::Resp { dest, .. } | Call::Vendor { dest, .. } | Call::Spdm { dest, .. } => *dest,
+            Call::Req { dest, .. } | Call::Resp { dest, .. } | Call::Vendor { dest, .. } | Call::Spdm { dest, .. } | Call::Raw { dest, .. } => *dest,
         }
     }
 
@@ -123,6 +127,11 @@ impl Call {
                     "generate_spdm_msg_packet_bytes.spdm"
                 }
             }
+            Call::Raw { kind, .. } => match kind {
+                0 => "generate_control_packet_bytes",
+                1 => "generate_pci_msg_packet_bytes",
+                _ => "generate_iana_msg_packet_bytes",
+            },
         }
     }
 
@@ -173,7 +182,7 @@ impl Call {
                 }
             }
             Call::Vendor { format, body, .. } => (if *format == 1 { 4 } else { 2 }) + body.len(),
-            Call::Spdm { hdr, body, .. } => hdr.as_ref().map(|h| h.len()).unwrap_or(0) + body.len(),
+            Call::Spdm { hdr, body, .. } | Call::Raw { hdr, body, .. } => hdr.as_ref().map(|h| h.len()).unwrap_or(0) + body.len(),
         }
     }
 
@@ -205,13 +214,18 @@ impl Call {
                     T_SPDM
                 }
             }
+            Call::Raw { kind, .. } => match kind {
+                0 => T_CONTROL,
+                1 => T_PCI,
+                _ => T_IANA,
+            },
         }
     }
 
     /// What C01 says decoding the exact encoded bytes yields.
     pub fn c01_expect(&self) -> Expect {
         match self {
-            Call::Req { .. } => Expect::Ok { mtype: T_CONTROL, start: 11 },
+            Call::Req { .. } | Call::Raw { kind: 0, .. } => Expect::Ok { mtype: T_CONTROL, start: 11 },
             Call::Resp { cc, .. } => {
                 if *cc == 0 {
                     Expect::Ok { mtype: T_CONTROL, start: 12 }
@@ -344,6 +358,17 @@ impl Call {
                 let f = VendorIDFormat { format: *format, data: *data, numeric_value: 0 };
                 ctx.get_request().vendor_defined(*dest, &f, body, buf)
             }
+            Call::Raw { kind, dest, hdr, body, half } => {
+                let h: Option<&[u8]> = hdr.as_deref();
+                match (kind, half) {
+                    (0, 0) => ctx.get_request().generate_control_packet_bytes(*dest, &h, body, buf),
+                    (0, _) => ctx.get_response().generate_control_packet_bytes(*dest, &h, body, buf),
+                    (1, 0) => ctx.get_request().generate_pci_msg_packet_bytes(*dest, &h, body, buf),
+                    (1, _) => ctx.get_response().generate_pci_msg_packet_bytes(*dest, &h, body, buf),
+                    (_, 0) => ctx.get_request().generate_iana_msg_packet_bytes(*dest, &h, body, buf),
+                    (_, _) => ctx.get_response().generate_iana_msg_packet_bytes(*dest, &h, body, buf),
+                }
+            }
             Call::Spdm { dest, secured, hdr, body, half } => {
                 let t = if *secured { MessageType::SecuredMessages } else { MessageType::SpdmOverMctp };
                 let h: Option<&[u8]> = hdr.as_deref();
@@ -376,6 +401,14 @@ impl Call {
             Call::Vendor { dest, format, data, body } => {
                 format!("req.vendor_defined(dest={:#04x}, format={}, id={:#x}, body_len={})", dest, format, data, body.len())
             }
+            Call::Raw { kind, dest, hdr, body, half } => format!(
+                "{}.{}(dest={:#04x}, hdr={:02x?}, body_len={})",
+                if *half == 0 { "req" } else { "resp" },
+                ["generate_control_packet_bytes", "generate_pci_msg_packet_bytes", "generate_iana_msg_packet_bytes"][(*kind).min(2) as usize],
+                dest,
+                hdr,
+                body.len()
+            ),
             Call::Spdm { dest, secured, hdr, body, half } => format!(
                 "{}.generate_spdm_msg_packet_bytes(dest={:#04x}, {}, hdr_len={:?}, body_len={})",
                 if *half == 0 { "req" } else { "resp" },
